@@ -86,11 +86,20 @@ Proof.
   unfold valid, known. intros Hin Hk. unfold oracle. rewrite Hin. cbn [negb].
   unfold inscope in Hin. repeat (apply andb_true_iff in Hin as [Hin ?]).
   rename H into Hnan, H0 into Hwt, H1 into Hkind. rename Hin into Hvalid.
-  rewrite Hwt in Hk. cbn [andb] in Hk.
+  change only_thumbprint_skipped with true in Hk. rewrite Hwt in Hk. cbn [andb] in Hk.
   destruct (wt cfg_schema true FUEL (root c) (c_val c)) eqn:Hwt1; [|discriminate Hk].
   destruct (save_load_roundtrip c Hwt1) as (y & Hy & Hde).
   unfold run, run_with. rewrite Hvalid. cbn [negb]. rewrite Hy, Hde.
+  cbn [list_eqb Z.eqb negb andb].
   rewrite skipn_zlen. rewrite val_eqb_refl. apply negb_true_iff in Hnan. rewrite Hnan. reflexivity.
+Qed.
+
+(* `save` as it is now never panics: every outcome is refused / Err / written *)
+Theorem never_panics c : run c <> [-2].
+Proof.
+  unfold run. change save_unwraps_serializer with false. unfold run_with.
+  destruct (negb (c_is_valid c)); [discriminate|].
+  destruct (ser cfg_schema FUEL (root c) (c_val c)); discriminate.
 Qed.
 
 (* ---- refutations --------------------------------------------------------------------------------------------- *)
